@@ -170,3 +170,10 @@ Proof. exact LinkVolMemCopyPlan.copy_helpers_lemma. Qed.
 Print Assumptions C04_write_is_copy_plan.
 Print Assumptions C04_read_is_copy_plan.
 Print Assumptions C04_copy_helpers_are_copy_plans.
+
+(* suite C04big (one LARGE bulk transfer, contents as patterns, judged from lengths): for every
+   route, element size 1..16, container / buffer / count below 2^32, the length-level model
+   (error class, reported count, written heap range) satisfies the length-level checker *)
+Theorem C04big_model_ok : forall c, wf_big c = true -> ok_C04big c (run_C04big c) = true.
+Proof. exact C04big_model_ok_lemma. Qed.
+Print Assumptions C04big_model_ok.
